@@ -99,8 +99,8 @@ var registry = []*HarnessSpec{
 	{Prop: "C12", Name: "zzH12ra", Pkg: pkgCorerad, Tier: "quick", Bounds: "all header fields of both RAs symbolic"},
 	{Prop: "C12", Name: "zzH12mtu", Pkg: pkgCorerad, Tier: "quick", Bounds: "MTU option present/absent per side, values symbolic, distinct objects"},
 	{Prop: "C12", Name: "zzH12captive", Pkg: pkgCorerad, Tier: "quick", Bounds: "captive-portal option present/absent per side, equal or different URI, distinct objects"},
-	{Prop: "C12", Name: "zzH12prefix", Pkg: pkgCorerad, Tier: "quick", Params: map[string]int{"n": 2, "n@thorough": 3}, Bounds: "0..n prefix options per side (n=2, thorough 3), all fields symbolic"},
-	{Prop: "C12", Name: "zzH12route", Pkg: pkgCorerad, Tier: "quick", Params: map[string]int{"n": 2, "n@thorough": 3}, Bounds: "0..n route options per side, all fields symbolic"},
+	{Prop: "C12", Name: "zzH12prefix", Pkg: pkgCorerad, Tier: "quick", Params: map[string]int{"n": 2}, Bounds: "0..2 prefix options per side, all fields symbolic (ours: any ns lifetime the parser accepts; theirs: whole seconds)"},
+	{Prop: "C12", Name: "zzH12route", Pkg: pkgCorerad, Tier: "quick", Params: map[string]int{"n": 2}, Bounds: "0..n route options per side, all fields symbolic"},
 	{Prop: "C12", Name: "zzH12rdnss", Pkg: pkgCorerad, Tier: "quick", Params: map[string]int{"n": 2, "n@thorough": 2}, Bounds: "0..2 RDNSS options per side with 1..2 symbolic servers"},
 	{Prop: "C12", Name: "zzH12dnssl", Pkg: pkgCorerad, Tier: "quick", Params: map[string]int{"n": 2, "n@thorough": 2}, Bounds: "0..2 DNSSL options per side with 1..2 names from three tokens"},
 	{Prop: "C14", Name: "zzH14a", Pkg: pkgPlugin, Tier: "quick", Params: map[string]int{"n": 3, "n@thorough": 4}, Bounds: "address list of n=3 (thorough 4) fully symbolic entries (either family, any length, six flags)"},
